@@ -191,7 +191,17 @@ def rule_concatenate(ctx):
                 ctx.violated('R3', fi, 'return ' + T.show(v)[:100], 'concatenate must build constructor(values, newaxes)', node=p.node)
                 continue
             vals, newaxes = v[2]
-            ok = vals[0] == 'call' and T.dotted(vals[1]) == 'np.concatenate' and vals[2] and vals[2][0][0] == 'comp' and T.kw(vals, 'axis') == AXIS \
+            AXU = T.kw(vals, 'axis') if (vals[0] == 'call' and T.kw(vals, 'axis') is not None) else AXIS      # the position actually used (one term everywhere below)
+            if AXU == AXIS:
+                # the caller's integer is used as it is: `i != axis` over enumerate() and subaxes[:axis] never see a position counted from the end
+                ctx.violated('R3', fi, 'negative axis position not normalised', 'concatenate(axis=-1) hands the raw position to the axes bookkeeping (`[ax for i, ax in enumerate(axes) if i != axis]`, '
+                             'subaxes[:axis]): NumPy concatenates along the last dimension but no axis is filtered out, so the call fails with "secondary axes do not match" '
+                             '(the position must be normalised first)', node=p.node)
+                continue
+            if not (T.contains(AXU, AXIS) and any(x[0] == 'binop' and x[1] in ('%', '+') for x in T.subterms(AXU))):
+                ctx.undecide('R3', 'concatenate: the axis position %s is not recognisably the normalised caller position' % T.show(AXU)[:80])
+                continue
+            ok = vals[0] == 'call' and T.dotted(vals[1]) == 'np.concatenate' and vals[2] and vals[2][0][0] == 'comp' and T.kw(vals, 'axis') == AXU \
                 and vals[2][0][2] == ('attr', ('elem', vals[2][0][3][0][1], vals[2][0][3][0][0]), 'values')
             if not ok:
                 ctx.violated('R3', fi, 'values = ' + T.show(vals)[:140], 'values: np.concatenate([a.values for a in arrays], axis=axis)', node=p.node)
@@ -208,7 +218,7 @@ def rule_concatenate(ctx):
                 ctx.violated('R3', fi, '_concatenate_axes', 'the labels of the concatenation axis must be concatenated once', node=p.node)
                 continue
             a0 = cax[0][2][0]
-            okl = a0[0] == 'comp' and a0[3][0][1] == joined and a0[2] == ('sub', ('attr', ('elem', joined, a0[3][0][0]), 'axes'), AXIS)
+            okl = a0[0] == 'comp' and a0[3][0][1] == joined and a0[2] == ('sub', ('attr', ('elem', joined, a0[3][0][0]), 'axes'), AXU)
             if not okl:
                 ctx.violated('R2' if (a0[0] == 'comp' and a0[3][0][1] != joined) else 'R3', fi, T.show(cax[0])[:160],
                              'the labels must be taken from the same list of arrays as the values, along the same axis, in the same order '
@@ -216,12 +226,12 @@ def rule_concatenate(ctx):
                 continue
             # newaxes = subaxes[:k] + [newaxis] + subaxes[k:]
             okn = newaxes[0] == 'binop' and newaxes[1] == '+' and newaxes[2][0] == 'binop' and newaxes[2][3] == ('list', (cax[0],)) \
-                and newaxes[2][2][0] == 'sub' and newaxes[2][2][2] == ('slice', T.CONST_NONE, AXIS, T.CONST_NONE) \
-                and newaxes[3][0] == 'sub' and newaxes[3][2] == ('slice', AXIS, T.CONST_NONE, T.CONST_NONE) and newaxes[3][1] == newaxes[2][2][1]
+                and newaxes[2][2][0] == 'sub' and newaxes[2][2][2] == ('slice', T.CONST_NONE, AXU, T.CONST_NONE) \
+                and newaxes[3][0] == 'sub' and newaxes[3][2] == ('slice', AXU, T.CONST_NONE, T.CONST_NONE) and newaxes[3][1] == newaxes[2][2][1]
             if okn:
                 sub = newaxes[3][1]
                 okn = sub[0] == 'comp' and sub[3][0][1] == ('call', ('name', 'enumerate'), (('attr', ('sub', joined, const(0)), 'axes'),), ()) \
-                    and sub[3][0][2] == (T.mkcmp('!=', ('idx', ('attr', ('sub', joined, const(0)), 'axes'), sub[3][0][0]), AXIS),)
+                    and sub[3][0][2] == (T.mkcmp('!=', ('idx', ('attr', ('sub', joined, const(0)), 'axes'), sub[3][0][0]), AXU),)
             if not okn:
                 ctx.violated('R3', fi, 'newaxes = ' + T.show(newaxes)[:160], 'result axes: the other axes of the first (normalised) array with the concatenated axis '
                              're-inserted at the same position k', node=p.node)
